@@ -181,8 +181,9 @@ def write_evidence(prop, mod, tier, seed, m, wall, n_viol, known_seen, extra):
         pass
     except FileNotFoundError:
         pass
-    os.makedirs(os.path.join(boot.ROOT, "evidence"), exist_ok=True)
-    path = os.path.join(boot.ROOT, "evidence", prop + ".json")
+    evdir = os.environ.get("LQV_EVIDENCE_DIR") or os.path.join(boot.ROOT, "evidence")
+    os.makedirs(evdir, exist_ok=True)
+    path = os.path.join(evdir, prop + ".json")
     tmp = path + ".tmp"
     with open(tmp, "w") as f:
         json.dump(ev, f, indent=1, sort_keys=True, default=repr)
@@ -195,7 +196,7 @@ def write_evidence(prop, mod, tier, seed, m, wall, n_viol, known_seen, extra):
 
 
 def write_replay(prop, tier, seed, v):
-    d = os.path.join(boot.ROOT, "replay", prop)
+    d = os.path.join(os.environ.get("LQV_REPLAY_DIR") or os.path.join(boot.ROOT, "replay"), prop)
     os.makedirs(d, exist_ok=True)
     rec = {"property": prop, "tier": tier, "seed": seed, "sig": v.get("sig"), "what": v.get("what"),
            "witness": v.get("witness")}
